@@ -6,7 +6,7 @@
    replays (by the rules) to board 0. *)
 From Coq Require Import NArith ZArith Arith List Bool Lia ZifyN ZifyBool ZifyNat.
 Require Import Rules Sym SymRules1 SymRules2 SymRules3 SymRules4.
-Require Import Board Stack Move GameOver Tps Symmetry CanonFacts Refine Slide2 Slide6 Slide8 MoveRefines SymCode1 Canon1 Canon2.
+Require Import Board Stack Move GameOver Tps Symmetry CanonFacts Refine Slide2 Slide6 Slide8 MoveRefines SymCode1 Canon1 Canon2 Canon2b.
 Require Import Generated.Consts.
 Import ListNotations.
 Close Scope Z_scope. Close Scope N_scope.
@@ -27,9 +27,9 @@ Lemma sym_range s j x y : j < 8 -> size_ok s -> (-80 <= x <= 80)%Z -> (-80 <= y 
   (-100 <= fst (sym (Z.of_nat s) j (x, y)) <= 100 /\ -100 <= snd (sym (Z.of_nat s) j (x, y)) <= 100)%Z.
 Proof. intros Hj Hs Hx Hy. unfold size_ok in Hs. do 8 (destruct j as [|j]; [cbn [sym fst snd]; unfold f; lia|]). lia. Qed.
 
-(* what Canonical is given: coordinates within 20 squares of the origin (every on-board square and every near miss; far outside, the int8
-   flips of the code wrap around and the code's symmetries are no longer the geometric ones), a type code <= 8, and at least one drop in a slide *)
-Definition canon_input (m : rmove) : Prop := inrange 20 m /\ movelike m.
+(* what Canonical is given: ANY int8 coordinates (the Go fields are int8), a type code <= 8, and at least one drop in a slide
+   (TransformMove panics on the rest) *)
+Definition canon_input (m : rmove) : Prop := int8 (mX m) /\ int8 (mY m) /\ movelike m.
 
 Section Canon.
 Variable sz : N.
@@ -71,6 +71,7 @@ Definition images_at (done cs : list rmove) (k : nat) : Prop :=
 Record cinv (done : list rmove) (st : cst) : Prop := {
   ci_len : length (fst (fst st)) = 8;
   ci_bi : forall b, In b (fst (fst st)) -> BI (cp b);
+  ci_rots : rots_ok s (snd (fst st));
   ci_img : forall i, i < 8 -> abs (cp (nth i (fst (fst st)) d)) = img i (A_of (fst (fst st)));
   ci_tfn : exists j B, j < 8 /\ agree (snd st) j /\ (forall x y, compose (snd (fst st)) x y = snd st x y) /\
              play (P0 sz) (map raw done) = Some B /\ well_shaped B /\ Rules.n B = s /\ A_of (fst (fst st)) = img j B;
@@ -84,6 +85,7 @@ Proof.
   constructor; cbn [fst snd].
   - reflexivity.
   - intros b Hb. apply repeat_spec in Hb. subst b. exact BI_new.
+  - constructor.
   - intros i Hi. rewrite HA. rewrite start_symmetric by assumption.
     fold d. rewrite nth_repeat_nil. reflexivity.
   - exists 0, (P0 sz). split; [lia|]. split; [intros x y _ _; reflexivity|]. split; [intros x y; reflexivity|].
@@ -103,12 +105,64 @@ Qed.
 Lemma hd_nth0 {A} (l : list A) x : hd x l = nth 0 l x.
 Proof. destruct l; reflexivity. Qed.
 
+(* a move that Canonical accepts has its origin on the board, whatever int8 coordinates it has *)
+Lemma cstep_onboard done boards rots tfn m st' :
+  cinv done (boards, rots, tfn) -> canon_input m -> cstep sz (Ok (boards, rots, tfn)) m = Ok st' -> onbz s (mX m) (mY m).
+Proof.
+  intros [Hlen _ Hrots _ (j & B & _ & _ & Hcomp & _ & _ & HnB & HA) _ _] (Hx & Hy & _) Hstep.
+  cbn [fst snd] in *. assert (Hs := Hs).
+  unfold cstep in Hstep. rewrite <- (N_nat_Z sz) in Hstep. fold s in Hstep.
+  destruct (transform_move tfn m) as [m1| |] eqn:E1; try discriminate.
+  set (L := combine (seq 0 8) boards) in *.
+  assert (HL : forall ib, In ib L -> fst ib < 8).
+  { intros [i b] Hin. apply (in_combine_seq d) in Hin. cbn [fst]. lia. }
+  destruct (fold_left _ L _) as [[best rot]| |] eqn:Ec; try discriminate.
+  (* the chosen move m2 is m1 or an image of m1 *)
+  assert (Hm2 : exists m2 rots' tfn', (m2 = m1 \/ exists i, i < 8 /\ transform_move (csym s i) m1 = Ok m2) /\
+      match all_res (map (move_board (syms (Z.of_nat s)) m2) L) with Ok bs => Ok (bs, rots', tfn') | Err => Err | Panic => Panic end = Ok st').
+  { destruct rot as [r|].
+    - exists best, (r :: rots), (compose (r :: rots)). split; [|exact Hstep].
+      apply (cand_fold_weak s _ m1 L _ best (Some r) HL) in Ec.
+      + destruct Ec as [E|E]; [discriminate|right; exact E].
+      + intros b r0 E. inversion E. left. reflexivity.
+    - exists m1, rots, tfn. split; [left; reflexivity|exact Hstep]. }
+  destruct Hm2 as (m2 & rots' & tfn' & Hm2 & Hst). clear Hstep Ec.
+  destruct (all_res _) as [bs| |] eqn:Eall; try discriminate. apply all_res_ok in Eall.
+  (* board 0 is moved by the identity image of m2 and accepts it *)
+  destruct boards as [|b0 rest]; [discriminate Hlen|]. subst L. cbn [seq combine map] in Eall.
+  assert (E0 := f_equal (hd Err) Eall). cbn [hd] in E0.
+  destruct bs as [|c0 bs']; [discriminate|]. cbn [map hd] in E0.
+  unfold move_board in E0. cbn [fst snd] in E0.
+  destruct (transform_move _ m2) as [rm| |] eqn:Erm; try discriminate.
+  destruct (cmv (cp b0) rm) as [q| |] eqn:Eq; try discriminate.
+  apply cmv_ok_onboard in Eq. apply transform_move_origin in Erm. cbn [nth syms] in Erm.
+  assert (Esz : size (cp b0) = sz).
+  { apply (f_equal Rules.n) in HA. unfold A_of, board0 in HA. cbn [hd] in HA. rewrite abs_n in HA. cbn [img Rules.n] in HA.
+    rewrite HnB in HA. unfold s in HA. lia. }
+  rewrite Esz, <- (N_nat_Z sz) in Eq. fold s in Eq.
+  assert (Hon2 : onbz s (mX m2) (mY m2)).
+  { injection Erm as Ex Ey. rewrite <- Ex, <- Ey. exact Eq. }
+  (* back through the candidate symmetry *)
+  apply transform_move_origin in E1. rewrite <- Hcomp in E1.
+  destruct (compose_int8 s rots Hrots (mX m) (mY m) Hx Hy) as [I1 I2]. rewrite <- E1 in I1, I2. cbn [fst snd] in I1, I2.
+  assert (Hon1 : onbz s (mX m1) (mY m1)).
+  { destruct Hm2 as [->|(i & Hi & Et)]; [exact Hon2|].
+    apply transform_move_origin in Et. apply (csym_onboard_inv s i (mX m1) (mY m1) Hi Hs I1 I2).
+    rewrite <- Et. exact Hon2. }
+  (* back through tfn = compose rots *)
+  apply (compose_onboard_inv s rots Hs Hrots (mX m) (mY m) Hx Hy). rewrite <- E1. exact Hon1.
+Qed.
+
 Lemma cstep_inv done boards rots tfn m st' :
   cinv done (boards, rots, tfn) -> nocoll_state (boards, rots, tfn) -> canon_input m ->
   cstep sz (Ok (boards, rots, tfn)) m = Ok st' -> sc_state st' -> cinv (done ++ [m]) st'.
 Proof.
-  intros [Hlen Hbi Himg (j & B & Hj & Hag & Hcomp & HplayB & HwB & HnB & HA) [HplayA HlenA] Hpref] Hnc [Hr Hml] Hstep Hsc.
-  unfold nocoll_state in Hnc. cbn [fst snd] in *. assert (Hs := Hs).
+  intros Hcinv Hnc Hin Hstep Hsc. assert (Hs := Hs).
+  assert (Hr : inrange 20 m).
+  { destruct (cstep_onboard _ _ _ _ _ _ Hcinv Hin Hstep) as [H1 H2]. unfold size_ok in Hs. split; lia. }
+  destruct Hin as (_ & _ & Hml).
+  destruct Hcinv as [Hlen Hbi Hrots Himg (j & B & Hj & Hag & Hcomp & HplayB & HwB & HnB & HA) [HplayA HlenA] Hpref].
+  unfold nocoll_state in Hnc. cbn [fst snd] in *.
   unfold cstep in Hstep. rewrite <- (N_nat_Z sz) in Hstep. fold s in Hstep.
   (* 1. the move in canonical coordinates *)
   assert (Em1 : transform_move tfn m = Ok (tmr j s m)).
@@ -128,10 +182,10 @@ Proof.
   match type of Hcand with ?P -> _ => assert (Hp : P) by (exists (tmr j s m), None; split; [reflexivity|left; split; reflexivity]) end.
   specialize (Hcand Hp). clear Hp. destruct Hcand as (best & rot & Ec & Hcase). rewrite Ec in Hstep. clear Ec.
   (* 3. the common continuation: board 0 is the image under j' of B, the boards are moved by the images of tmr j' s m *)
-  assert (Hfin : forall j' rots' tfn', j' < 8 -> A_of boards = img j' B -> agree tfn' j' -> (forall x y, compose rots' x y = tfn' x y) ->
+  assert (Hfin : forall j' rots' tfn', j' < 8 -> A_of boards = img j' B -> agree tfn' j' -> (forall x y, compose rots' x y = tfn' x y) -> rots_ok s rots' ->
             match all_res (map (move_board (syms (Z.of_nat s)) (tmr j' s m)) L) with Ok bs => Ok (bs, rots', tfn') | Err => Err | Panic => Panic end = Ok st' ->
             cinv (done ++ [m]) st').
-  { clear Hstep Hcase best rot. intros j' rots' tfn' Hj' HA' Hag' Hcomp' Hstep.
+  { clear Hstep Hcase best rot. intros j' rots' tfn' Hj' HA' Hag' Hcomp' Hrots' Hstep.
     destruct (all_res _) as [bs| |] eqn:Eall; try discriminate. inversion Hstep; subst st'; clear Hstep.
     unfold sc_state in Hsc. cbn [fst snd] in Hsc.
     set (m2 := tmr j' s m) in *.
@@ -163,6 +217,7 @@ Proof.
     - exact Hlbs.
     - intros b Hb. destruct (In_nth _ _ d Hb) as (i & Hi & <-). rewrite Hlbs in Hi.
       destruct (Hq' i Hi) as (qi & Enthi & _ & Hbq). rewrite Enthi. exact Hbq.
+    - exact Hrots'.
     - intros i Hi. destruct (Hq' i Hi) as (qi & Enthi & Ri & _). rewrite Enthi. cbn [cp]. rewrite HA2.
       rewrite (Himg i Hi), raw_tmr, <- HnA in Ri. rewrite (rules_equivariant i _ (raw m2) Hi HwA), R0 in Ri.
       cbn [option_map] in Ri. apply some_inj in Ri. symmetry. exact Ri.
@@ -182,7 +237,7 @@ Proof.
         split; [rewrite play_snoc, HplayB; exact EB|]. exact EA'. }
   (* 4. the two cases of the candidate loop *)
   destruct Hcase as [[-> ->]|(i & b & Hi & Hinb & Hh & -> & ->)].
-  - apply (Hfin j rots tfn Hj HA Hag Hcomp). exact Hstep.
+  - apply (Hfin j rots tfn Hj HA Hag Hcomp Hrots). exact Hstep.
   - cbv zeta in Hstep. rewrite (tmr_comp i j s m ltac:(lia) Hj) in Hstep.
     apply (Hfin (comp i j) (csym s i :: rots) (compose (csym s i :: rots))); try assumption.
     + apply comp_lt; lia.
@@ -196,6 +251,7 @@ Proof.
       destruct (sym (Z.of_nat s) j (x, y)) as [a c] eqn:E. cbn [fst snd] in R1, R2.
       rewrite csym_sym by (assumption || lia). rewrite <- E. apply comp_ok; lia.
     + reflexivity.
+    + constructor; [exists i; split; [lia|reflexivity]|exact Hrots].
 Qed.
 
 Lemma canonical_inv : forall ms, Forall canon_input ms -> nocoll_trace ms -> sc_trace ms ->
@@ -227,6 +283,6 @@ Proof.
   intros ms cs Hall Hnc Hsc H. rewrite canonical_unfold in H.
   destruct (fold_left (cstep sz) ms (cinit sz)) as [[[boards rots] tfn]| |] eqn:Ef; try discriminate.
   inversion H; subst cs; clear H.
-  destruct (canonical_inv ms Hall Hnc Hsc _ Ef) as [_ _ _ _ [_ Hl] Hp]. cbn [fst snd] in *. split; [exact Hl|exact Hp].
+  destruct (canonical_inv ms Hall Hnc Hsc _ Ef) as [_ _ _ _ _ [_ Hl] Hp]. cbn [fst snd] in *. split; [exact Hl|exact Hp].
 Qed.
 End Canon.
